@@ -1100,6 +1100,11 @@ func (c *Ctx) binop(fr *Frame, st *State, op token.Token, a, b Val, at, bt, rt t
 	}
 	switch op {
 	case token.ADD:
+		if fs := c.DB.Funcs[c.fn]; fs != nil && fr != nil && !signed {
+			if _, ok := fs.Flags["arithcheck"]; ok {
+				c.safe(st, fr, "safe/arith", "(bvuge (bvadd "+a.T+" "+b.T+") "+a.T+")", fmt.Sprintf("unsigned addition on %s does not wrap", typeShort(at)))
+			}
+		}
 		return f("bvadd")
 	case token.SUB:
 		return f("bvsub")
